@@ -332,5 +332,8 @@ PROP = Prop(
                   "harness/props/c18.py (line protocol, list-based blade multiplication oracle)",
                   "coefficients are integers in the model (weights and cocycles are proved over "
                   "arbitrary commutative rings); floats/symbolic coefficients are not modelled"],
+    level_text='Lean theorems for ALL bitmaps (hence all dimensions, beyond the 0-5 of the property) and all diagonal integer metrics: the reordering sign is the inversion parity and satisfies the cocycle identity, metric weights satisfy theirs, hence the geometric and outer products of arbitrary multivectors are associative and bilinear (under Python == of the pruned dictionaries); basis vectors square to the metric and anticommute; the five other products are the stated grade parts; rev is an anti-automorphism, invol an automorphism; blade inverse; == and bool are coefficient-wise on pruned data. The model mirrors the code loop by loop and is tied by exhaustive blade pairs in dims 0-4 x metrics and random multivectors.',
+    level_note='Trusted: Lean kernel; harness. Multivector coefficients are integers in the model (weights/cocycles proved over arbitrary commutative rings); float and symbolic coefficients, non-diagonal metrics and dual/multi-term inverse have no theorem (correspondence and algebraic-law oracles only).',
+    technique='Lean 4 proofs (bit-parity bilinearity, cocycle, finitely-supported-function refinement of the dict product) + exhaustive blade-pair correspondence + list-based blade multiplication oracle',
     design_ref="DESIGN.md §4 C18",
 )
